@@ -626,10 +626,8 @@ func validateHeaderParameters(h map[any]any, protected bool) error {
 			if protected {
 				return errors.New("header parameter: counter signature: not allowed")
 			}
-			if _, ok := value.(*Countersignature); !ok {
-				if _, ok := value.([]*Countersignature); !ok {
-					return errors.New("header parameter: counter signature is not a Countersignature or a list")
-				}
+			if !isCountersignatureValue(value) {
+				return errors.New("header parameter: counter signature is not a Countersignature or a list")
 			}
 		case HeaderLabelCounterSignature0:
 			if protected {
@@ -642,10 +640,8 @@ func validateHeaderParameters(h map[any]any, protected bool) error {
 			if protected {
 				return errors.New("header parameter: Countersignature version 2: not allowed")
 			}
-			if _, ok := value.(*Countersignature); !ok {
-				if _, ok := value.([]*Countersignature); !ok {
-					return errors.New("header parameter: Countersignature version 2 is not a Countersignature or a list")
-				}
+			if !isCountersignatureValue(value) {
+				return errors.New("header parameter: Countersignature version 2 is not a Countersignature or a list")
 			}
 		case HeaderLabelCounterSignature0V2:
 			if protected {
@@ -657,6 +653,26 @@ func validateHeaderParameters(h map[any]any, protected bool) error {
 		}
 	}
 	return nil
+}
+
+// isCountersignatureValue reports whether v holds a countersignature object: a
+// non-nil *Countersignature, or a non-empty list of them without nil entries.
+func isCountersignatureValue(v any) bool {
+	switch v := v.(type) {
+	case *Countersignature:
+		return v != nil
+	case []*Countersignature:
+		if len(v) == 0 {
+			return false
+		}
+		for _, c := range v {
+			if c == nil {
+				return false
+			}
+		}
+		return true
+	}
+	return false
 }
 
 // canUint reports whether v can be used as a CBOR uint type.
